@@ -43,7 +43,7 @@ func buildCLI(scratch string) string {
 
 type cliCaseFunc func(r *clisim.Runner, base string, tape *sim.Tape) *clisim.Outcome
 
-var cliCases = map[string]cliCaseFunc{"C20": clisim.C20Case}
+var cliCases = map[string]cliCaseFunc{"C20": clisim.C20Case, "C19": clisim.C19Case}
 
 func checkCLI(cfg *propCfg, tier string, seed uint64, scratch string, start time.Time) int {
 	bin := buildCLI(scratch)
